@@ -167,3 +167,146 @@ fn m3_chunk_vec_schema() {
     kani::cover!(true);
     std::mem::forget((c, schema));
 }
+
+use grafeo_core::execution::operators::{BinaryFilterOp, ExpressionPredicate, FilterExpression, UnaryFilterOp};
+use grafeo_core::graph::lpg::LpgStore;
+use std::sync::Arc;
+macro_rules! expr_h {
+    ($name:ident, $body:block) => {
+        #[kani::proof]
+        #[kani::unwind(5)]
+        #[kani::stub(parking_lot::RawRwLock::lock_exclusive_slow, lk_slow)]
+        #[kani::stub(parking_lot::RawRwLock::lock_shared_slow, lk_sh_slow)]
+        #[kani::stub(parking_lot::RawRwLock::unlock_exclusive_slow, ulk_slow)]
+        #[kani::stub(parking_lot::RawRwLock::unlock_shared_slow, ulk_sh_slow)]
+        #[kani::stub(parking_lot::RawMutex::lock_slow, mx_lock_slow)]
+        #[kani::stub(parking_lot::RawMutex::unlock_slow, mx_unlock_slow)]
+        #[kani::stub(alloc::fmt::format, fmt_stub)]
+        #[kani::stub(std::hash::RandomState::new, std_rs_new)]
+        #[kani::stub(ahash::RandomState::new, ahash_rs_new)]
+        #[kani::stub(regex::Regex::new, regex_new_stub)]
+        fn $name() $body
+    };
+}
+fn lit(v: Value) -> Box<FilterExpression> { Box::new(FilterExpression::Literal(v)) }
+fn predx(e: FilterExpression) -> ExpressionPredicate { ExpressionPredicate::new(e, std::collections::HashMap::new(), Arc::new(LpgStore::new())) }
+expr_h!(x_evalat_div, {
+    let (a, b): (i64, i64) = (kani::any(), kani::any());
+    let p = predx(FilterExpression::Binary { left: lit(Value::Int64(a)), op: BinaryFilterOp::Div, right: lit(Value::Int64(b)) });
+    let c = DataChunk::empty();
+    let r = p.eval_at(&c, 0);
+    match &r { Some(Value::Int64(q)) => assert!(b != 0 && *q == a.wrapping_div(b)), None => assert!(b == 0 || (a == i64::MIN && b == -1)), _ => assert!(false) }
+    kani::cover!(r.is_none());
+    std::mem::forget((p, c, r));
+});
+expr_h!(x_evalat_index, {
+    let (a, b, i): (i64, i64, i64) = (kani::any(), kani::any(), kani::any());
+    let p = predx(FilterExpression::IndexAccess { base: Box::new(FilterExpression::List(vec![FilterExpression::Literal(Value::Int64(a)), FilterExpression::Literal(Value::Int64(b))])), index: lit(Value::Int64(i)) });
+    let c = DataChunk::empty();
+    let r = p.eval_at(&c, 0);
+    let want = if i == 0 || i == -2 { Some(a) } else if i == 1 || i == -1 { Some(b) } else { None };
+    match &r { Some(Value::Int64(q)) => assert!(want == Some(*q)), None => assert!(want.is_none()), _ => assert!(false) }
+    kani::cover!(r.is_none());
+    std::mem::forget((p, c, r));
+});
+
+use grafeo_core::storage::{BitPackedInts, DeltaBitPacked};
+fn eq_u64(a: &[u64], b: &[u64]) -> bool { if a.len() != b.len() { return false; } let mut i = 0; while i < a.len() { if a[i] != b[i] { return false; } i += 1; } true }
+macro_rules! dbp_bytes { ($name:ident, $n:expr) => {
+    #[kani::proof]
+    #[kani::unwind(20)]
+    fn $name() {
+        let v: [u64; $n] = kani::any();
+        let mut i = 1; while i < $n { kani::assume(v[i - 1] <= v[i]); i += 1; }
+        let p = DeltaBitPacked::encode(&v);
+        let bytes = p.to_bytes();
+        let q = DeltaBitPacked::from_bytes(&bytes).unwrap();
+        assert!(q.len() == $n && q.is_empty() == ($n == 0), "length changed by the byte round trip");
+        assert!(q.base() == p.base() && q.bits_per_delta() == p.bits_per_delta(), "header changed by the byte round trip");
+        assert!(eq_u64(&q.decode(), &v), "decode after the byte round trip differs from the input");
+        kani::cover!($n == 0 || v[0] == 0);
+        std::mem::forget((p, bytes, q));
+    }
+} }
+dbp_bytes!(x_dbp_bytes_n0, 0);
+dbp_bytes!(x_dbp_bytes_n1, 1);
+dbp_bytes!(x_dbp_bytes_n2, 2);
+
+use grafeo_engine::query::plan::{BinaryOp, LogicalExpression};
+use grafeo_engine::query::planner::Planner;
+fn prop_e() -> Box<LogicalExpression> { Box::new(LogicalExpression::Property { variable: String::from("n"), property: String::from("k") }) }
+fn lit_e(v: i64) -> Box<LogicalExpression> { Box::new(LogicalExpression::Literal(Value::Int64(v))) }
+fn cmp_op(c: u8) -> BinaryOp { match c { 0 => BinaryOp::Lt, 1 => BinaryOp::Le, 2 => BinaryOp::Gt, _ => BinaryOp::Ge } }
+fn holds(c: u8, x: i64, v: i64) -> bool { match c { 0 => x < v, 1 => x <= v, 2 => x > v, _ => x >= v } }
+/// one side of the conjunction: `n.k op v` (flip = false) or `v op' n.k` with the mirrored operator (flip = true); both mean x op v
+fn side(c: u8, v: i64, flip: bool) -> Box<LogicalExpression> {
+    if flip { let m = match c { 0 => 2, 1 => 3, 2 => 0, _ => 1 }; Box::new(LogicalExpression::Binary { left: lit_e(v), op: cmp_op(m), right: prop_e() }) }
+    else { Box::new(LogicalExpression::Binary { left: prop_e(), op: cmp_op(c), right: lit_e(v) }) }
+}
+expr_h!(x_between, {
+    let (c1, c2): (u8, u8) = (kani::any(), kani::any());
+    kani::assume(c1 < 4 && c2 < 4);
+    let (a, b, x): (i64, i64, i64) = (kani::any(), kani::any(), kani::any());
+    let (f1, f2): (bool, bool) = (kani::any(), kani::any());
+    let e = LogicalExpression::Binary { left: side(c1, a, f1), op: BinaryOp::And, right: side(c2, b, f2) };
+    let pl = Planner::new(Arc::new(LpgStore::new()));
+    let r = pl.verif_extract_between_predicate(&e);
+    let truth = holds(c1, x, a) && holds(c2, x, b);
+    match &r {
+        Some((_, _, Value::Int64(lo), Value::Int64(hi), li, ui)) => {
+            let in_range = (if *li { x >= *lo } else { x > *lo }) && (if *ui { x <= *hi } else { x < *hi });
+            assert!(in_range == truth, "the extracted range is not the set the conjunction describes");
+        }
+        Some(_) => assert!(false, "bounds changed kind"),
+        None => {}
+    }
+    kani::cover!(r.is_some() && c1 == 1 && c2 == 2);
+    kani::cover!(r.is_some() && f1 && !f2);
+    std::mem::forget((e, pl, r));
+});
+
+fn cmp6(c: u8) -> BinaryOp { match c { 0 => BinaryOp::Eq, 1 => BinaryOp::Ne, 2 => BinaryOp::Lt, 3 => BinaryOp::Le, 4 => BinaryOp::Gt, _ => BinaryOp::Ge } }
+fn holds6(c: u8, x: i64, v: i64) -> bool { match c { 0 => x == v, 1 => x != v, 2 => x < v, 3 => x <= v, 4 => x > v, _ => x >= v } }
+/// `n.k op l` (flip false) or `l op n.k` (flip true); returns the expression and whether it is true for the stored value v
+fn cmp_side(c: u8, v: i64, l: i64, flip: bool) -> (Box<LogicalExpression>, bool) {
+    if flip { (Box::new(LogicalExpression::Binary { left: lit_e(l), op: cmp6(c), right: prop_e() }), holds6(c, l, v)) }
+    else { (Box::new(LogicalExpression::Binary { left: prop_e(), op: cmp6(c), right: lit_e(l) }), holds6(c, v, l)) }
+}
+use grafeo_core::execution::operators::{AggregateFunction, VerifAggregateState};
+fn fold3(f: AggregateFunction, a: Value, b: Value, c: Value) -> Value {
+    let mut s = VerifAggregateState::new(f);
+    s.update(Some(a)); s.update(Some(b)); s.update(Some(c));
+    let r = s.finalize();
+    std::mem::forget(s);
+    r
+}
+#[kani::proof]
+#[kani::unwind(4)]
+fn x_agg_int() {
+    let (a, b, c): (i64, i64, i64) = (kani::any(), kani::any(), kani::any());
+    let v = |x: i64| Value::Int64(x);
+    // count(*): one update per row, no value
+    let mut s = VerifAggregateState::new(AggregateFunction::Count);
+    let k: u8 = kani::any(); kani::assume(k <= 3);
+    let mut i = 0; while i < 3 { if i < k { s.update(None); } i += 1; }
+    assert!(matches!(s.finalize(), Value::Int64(n) if n == k as i64), "count(*) is not the number of rows");
+    std::mem::forget(s);
+    let r = fold3(AggregateFunction::CountNonNull, v(a), v(b), v(c)); assert!(matches!(r, Value::Int64(3))); std::mem::forget(r);
+    let mn = if a <= b && a <= c { a } else if b <= c { b } else { c };
+    let mx = if a >= b && a >= c { a } else if b >= c { b } else { c };
+    let r = fold3(AggregateFunction::Min, v(a), v(b), v(c)); assert!(matches!(r, Value::Int64(x) if x == mn), "min is not the minimum"); std::mem::forget(r);
+    let r = fold3(AggregateFunction::Max, v(a), v(b), v(c)); assert!(matches!(r, Value::Int64(x) if x == mx), "max is not the maximum"); std::mem::forget(r);
+    let r = fold3(AggregateFunction::First, v(a), v(b), v(c)); assert!(matches!(r, Value::Int64(x) if x == a)); std::mem::forget(r);
+    let r = fold3(AggregateFunction::Last, v(a), v(b), v(c)); assert!(matches!(r, Value::Int64(x) if x == c)); std::mem::forget(r);
+    let r = fold3(AggregateFunction::Avg, v(a), v(b), v(c));
+    let want = (0.0 + a as f64 + b as f64 + c as f64) / 3.0;
+    assert!(matches!(r, Value::Float64(x) if x.to_bits() == want.to_bits()), "avg is not sum / count"); std::mem::forget(r);
+    // sum: exact when it fits; never a panic when it does not
+    let r = fold3(AggregateFunction::Sum, v(a), v(b), v(c));
+    match a.checked_add(b).and_then(|s| s.checked_add(c)) {
+        Some(t) => assert!(matches!(r, Value::Int64(x) if x == t), "sum is not the sum"),
+        None => assert!(!matches!(r, Value::Int64(_)) , "an overflowing integer sum was reported as an integer"),
+    }
+    kani::cover!(a.checked_add(b).is_none());
+    std::mem::forget(r);
+}
